@@ -66,6 +66,10 @@ func mkShape(kind, method string) shape {
 		// two generates entries: removing only one of them must trigger a run
 		t.Generates = []Glob{{false, "out.txt"}, {false, "out2.txt"}}
 		t.Outputs = []string{"out.txt", "out2.txt"}
+	case "subcall":
+		// the first command calls a child whose precondition is `test -f guard.flag` (not a source)
+		t.SubGuard = "guard.flag"
+		init = append(init, FileInit{"guard.flag", "g", 5})
 	case "silent-task":
 		t.Silent = true
 	case "silent-cmd":
@@ -121,6 +125,9 @@ var (
 	aForceKill1        = inv("force", "kill", 1)
 	aForceDeclined     = inv("force", "promptno", 0)
 
+	aGuardOff aop = func(i int, sh shape) Op { return Op{Kind: "remove", P: "guard.flag"} }
+	aGuardOn  aop = func(i int, sh shape) Op { return Op{Kind: "write", P: "guard.flag", C: "g"} }
+
 	aRunOk     = inv("run", "ok", 0)
 	aRunFail0  = inv("run", "fail", 0)
 	aRunFailL  = invLast("run", "fail")
@@ -150,6 +157,9 @@ func alphabet(prop, kind string) []aop {
 			// the exhaustively enumerated shape: kill@1 is covered by the other shapes and the directed histories
 			al = []aop{aEdit, aRunOk, aRunFail0, aRunFailL, aKill0, aForceFail, aListJSON, aDry}
 		}
+		if kind == "subcall" {
+			return []aop{aEdit, aRunOk, aForceOk, aDry, aGuardOff, aGuardOn}
+		}
 		if kind == "inst" {
 			// two instances of one definition: runs of either, a parent calling both, edits
 			return []aop{aEdit, aRunOk, aRun1, aChain, aRunFail0, aForceFail}
@@ -162,6 +172,8 @@ func alphabet(prop, kind string) []aop {
 			al = append(al, aRmGen)
 		case "gen2":
 			return []aop{aEdit, aRemove, aTouch, aRunOk, aForceOk, aRmGen, aRmGen2}
+		case "subcall":
+			return []aop{aEdit, aRunOk, aForceOk, aGuardOff, aGuardOn}
 		case "status":
 			al = append(al, aRmGen, aFlagOff, aFlagOn)
 		case "plain":
@@ -170,6 +182,9 @@ func alphabet(prop, kind string) []aop {
 		return al
 	default: // C12
 		switch kind {
+		case "subcall":
+			// a followed sub-call can fail in dry mode (callee precondition): still nothing may change
+			return []aop{aEdit, aRunOk, aDry, aStatus, aGuardOff, aGuardOn}
 		case "silent-task", "silent-cmd", "silent-file":
 			// nothing is echoed: --dry must still not execute anything
 			return []aop{aEdit, aRunOk, aRunFailL, aDry, aDrySil, aStatus}
@@ -236,12 +251,12 @@ func plans(prop, tier string) []plan {
 	}
 	switch prop {
 	case "C04":
-		return []plan{{"plain", full, false}, {"prompt", part, true}, {"gen", part, true}, {"collide", 1, true}, {"label", 1, true}, {"inst", part, true}}
+		return []plan{{"plain", full, false}, {"prompt", part, true}, {"gen", part, true}, {"collide", 1, true}, {"label", 1, true}, {"inst", part, true}, {"subcall", part, true}}
 	case "C05":
 		return []plan{{"gen", full, false}, {"plain", part, true}, {"status", part, true}, {"gen2", part, true}}
 	default:
 		return []plan{{"plain", full, false}, {"dir", part, true}, {"gen", part, true},
-			{"silent-task", part, true}, {"silent-cmd", part, true}, {"silent-file", part, true}}
+			{"silent-task", part, true}, {"silent-cmd", part, true}, {"silent-file", part, true}, {"subcall", part, true}}
 	}
 }
 
@@ -304,6 +319,11 @@ func Exhaustive(prop, tier string, shard, shards int) []*Case {
 			emit("directed", sh, []Op{aRunOk(0, sh), aRmGen(1, sh), aRunOk(2, sh)})
 			emit("directed", sh, []Op{aRunOk(0, sh), aRmGen2(1, sh), aRunOk(2, sh)})
 			emit("directed", sh, []Op{aRunOk(0, sh), aRmGen(1, sh), aRmGen2(2, sh), aRunOk(3, sh)})
+			// a failing sub-call in a normal / forced run is a failing command: the record must go
+			sh = mkShape("subcall", m)
+			emit("directed", sh, []Op{aRunOk(0, sh), aEdit(1, sh), aGuardOff(2, sh), aRunOk(3, sh), aGuardOn(4, sh), aRunOk(5, sh), aRunOk(6, sh)})
+			emit("directed", sh, []Op{aRunOk(0, sh), aGuardOff(1, sh), aForceOk(2, sh), aGuardOn(3, sh), aRunOk(4, sh), aRunOk(5, sh)})
+			emit("directed", sh, []Op{aRunOk(0, sh), aGuardOff(1, sh), aRunOk(2, sh), aDry(3, sh), aGuardOn(4, sh), aRunOk(5, sh)})
 			// instances of one definition with a templated label
 			sh = mkShape("inst", m)
 			emit("directed", sh, []Op{aRunOk(0, sh), aRun1(1, sh), aRunOk(2, sh), aRun1(3, sh)})
@@ -316,6 +336,11 @@ func Exhaustive(prop, tier string, shard, shards int) []*Case {
 			emit("directed", sh, []Op{aRunSil(0, sh), aDrySil(1, sh), aRunSil(2, sh)})
 			sh = mkShape("gen", m)
 			emit("directed", sh, []Op{aDrySil(0, sh), aRunOk(1, sh)})
+			// --dry following a sub-call whose callee's precondition fails, with a record to lose
+			sh = mkShape("subcall", m)
+			emit("directed", sh, []Op{aRunOk(0, sh), aEdit(1, sh), aGuardOff(2, sh), aDry(3, sh), aGuardOn(4, sh), aRunOk(5, sh)})
+			emit("directed", sh, []Op{aRunOk(0, sh), aGuardOff(1, sh), aEdit(2, sh), aDry(3, sh), aStatus(4, sh), aRunOk(5, sh)})
+			emit("directed", sh, []Op{aRunOk(0, sh), aGuardOff(1, sh), aDry(2, sh), aRunOk(3, sh)})
 		}
 	}
 	return out
@@ -323,9 +348,9 @@ func Exhaustive(prop, tier string, shard, shards int) []*Case {
 
 // Random draws a longer history over the union of the alphabets of a random shape.
 func Random(prop string, r *rand.Rand) *Case {
-	kinds := []string{"plain", "gen", "prompt", "status", "dir", "collide", "label", "gen2", "inst"}
+	kinds := []string{"plain", "gen", "prompt", "status", "dir", "collide", "label", "gen2", "inst", "subcall"}
 	if prop == "C12" {
-		kinds = []string{"plain", "gen", "dir", "status", "collide", "silent-task", "silent-cmd", "silent-file"}
+		kinds = []string{"plain", "gen", "dir", "status", "collide", "silent-task", "silent-cmd", "silent-file", "subcall"}
 	}
 	kind := kinds[r.Intn(len(kinds))]
 	m := []string{"checksum", "timestamp"}[r.Intn(2)]
